@@ -24,12 +24,13 @@ def generate(tier, seed):
     cases = []
     for k in range(60 if tier == 'quick' else 600):
         pkg = pkgcase.gen_package(rng)
+        pkg['flux_unit'] = ['mJy', 'Jy', 'mJy'][k % 3]          # the SED files / the cube store their fluxes in mJy or in Jy
         if k % 4 == 3 and len(pkg['names']) >= 2:
             pkgcase.own_grids(rng, pkg)       # per-file package whose SEDs are not all on one grid (no cube form exists)
         nb = len(pkg['filters'])
         src = fitcase.gen_source(rng, nb, flags=[1] * nb if nb < 3 else None)
         ext = fitcase.gen_ext(rng, [f['wav'] for f in pkg['filters']])
-        cases.append(dict(pkg=pkg, src=src, ext=ext, rerun=(k % 3 == 1)))
+        cases.append(dict(pkg=pkg, src=src, ext=ext, rerun=(k % 3 == 1), conv_memmap=(k % 2 == 0)))      # conv_memmap: the memmap option of convolve_model_dir (cube path)
     return cases
 
 
@@ -56,10 +57,10 @@ def impl(case):
                 f['resp'] = [x * 3.0 + 1.0 for x in reversed(f['resp'])]
                 f['normalize'] = False
                 f['wav'] = f['wav'] * 2.0
-            convolve_model_dir(d, pkgcase.make_filters(decoy))
-            convolve_model_dir(d, pkgcase.make_filters(pkg), overwrite=True)
+            convolve_model_dir(d, pkgcase.make_filters(decoy), memmap=case.get('conv_memmap', True))
+            convolve_model_dir(d, pkgcase.make_filters(pkg), overwrite=True, memmap=case.get('conv_memmap', True))
         else:
-            convolve_model_dir(d, pkgcase.make_filters(pkg))
+            convolve_model_dir(d, pkgcase.make_filters(pkg), memmap=case.get('conv_memmap', True))
     with tempfile.TemporaryDirectory() as d1:
         pkgcase.write_v1(d1, pkg)
         conv(d1)
@@ -126,12 +127,13 @@ def _exact_row(pkg, k, n, norm_resp):
         e1, e2 = min(max(e1, fmin), fmax), min(max(e2, fmin), fmax)
         R.append(c06._G(pts, e2) - c06._G(pts, e1))
     sd = pkg['seds'][n]
-    return [sum(F(x) * r for x, r in zip(row, R)) for row in sd['flux']], [sum((F(x) * r) ** 2 for x, r in zip(row, R)) for row in sd['err']]
+    ku = pkgcase.UNIT_MJY[pkg.get('flux_unit', 'mJy')]
+    return [sum(F(x) * ku * r for x, r in zip(row, R)) for row in sd['flux']], [sum((F(x) * ku * r) ** 2 for x, r in zip(row, R)) for row in sd['err']]
 
 
 def judge(case, im, mo):
     pkg = case['pkg']
-    tags = ['nm=%d' % len(pkg['names']), 'nap=%d' % (1 if pkg['aps'] is None else len(pkg['aps'])), 'nf=%d' % len(pkg['filters'])]
+    tags = ['unit=' + pkg.get('flux_unit', 'mJy'), 'nm=%d' % len(pkg['names']), 'nap=%d' % (1 if pkg['aps'] is None else len(pkg['aps'])), 'nf=%d' % len(pkg['filters'])]
     if 'exc' in im:
         return dict(disagree=['implementation raised ' + im['msg']], fail=['raised: %s' % im['msg']], nontrivial=False, tags=tags + ['raised'])
     if any(isinstance(m, tuple) for m in mo):
